@@ -45,7 +45,9 @@ InMyShard == NSHARD = 1 \/ (Mix(SumSeq([n \in 1..Len(hist) |->
                  ELSE IF hist[n].act = "Mutate" THEN MixV(n * 3 + hist[n].k, hist[n].v) ELSE n * 7 + hist[n].id]), SEED) % NSHARD) = 0
 \* the polyhedron (8) keeps its value when the polygons it was built from (4..7) are moved, and everything keeps
 \* its value when the shared Points are mutated: heap[i] changes only by Move(i, _)
-OwnInv == [][\A i \in DOMAIN heap : heap'[i] # heap[i] => (hist' # hist /\ hist'[Len(hist')].act = "Move" /\ hist'[Len(hist')].id = i)]_vars
+OwnInv == [][\A i \in DOMAIN heap : heap'[i] # heap[i] => (hist' # hist /\ hist'[Len(hist')].act \in {"Move", "MoveKeep"} /\ hist'[Len(hist')].id = i)]_vars
+\* quick tier: histories that start with a state-changing call (query-after-query is covered by the simulated histories and the pair jobs)
+FirstNotQuery == Len(hist) >= 1 => hist[1].act # "Query"
 Emit == (Len(hist) < MaxDepth \/ ~InMyShard)
         \/ PrintT(ToJson([hist |-> WithAnswers(hist), build |-> MCBuild, args0 |-> MCArgPts, argk |-> MCArgKinds, heap0 |-> orig, heap |-> heap, args |-> args, s |-> S]))
 =============================================================================
